@@ -60,9 +60,26 @@ def run(chk):
         if mres != ires:
             ndis += 1
             chk.tie_break('correspondence:read_text', 'model %r vs implementation %r' % (m, i), c)
+    # --- estimates far beyond the text (the manual allows any over-estimate): 2^24 .. SIZE_MAX.  The model is run with nChars = the
+    # number of units: C12_utf*_stops_at_nul says every larger value gives the same result.
+    hcases, hmodel = [], []
+    for e in (8, 16, 32):
+        for u in ([0x61, 0x62, 0x63], [], [0x41], [0x61] * 9):
+            for nch in (1 << 24, 1 << 31, (1 << 31) + 1, 1 << 32, 1 << 60, (1 << 64) - 10, (1 << 64) - 1):
+                hcases.append('h%d decode %d %d %s' % (len(hcases), e, nch, G.hexu(u, e)))
+                hmodel.append('h%d decode %d %d %s' % (len(hmodel), e, len(u), G.hexu(u, e)))
+    _, hil, _ = vlib.run_pair(None, wrapper, hcases, timeout=1200)
+    hml, _, _ = vlib.run_pair(mexe, None, hmodel)
+    for c, m, i in zip(hcases, hml, hil):
+        if i is None or m is None:
+            chk.tie_break('harness', 'no result line', c); continue
+        if i.split()[1:] != m.split()[1:]:
+            chk.violation('makeseg:huge:%s' % ' '.join(c.split()[2:]), 'gr_make_seg with nChars = %s on the NUL-terminated string %s: expected %s, got %s' % (c.split()[3], c.split()[4], ' '.join(m.split()[1:])[:120], ' '.join(i.split()[1:])[:200]), dict(case=c, got=i))
+        classes.add(('huge', c.split()[2], c.split()[3], c.split()[4][:8]))
+    cases = cases + hcases
     chk.cov.update(evaluations=len(cases), distinct_nontrivial=len(classes), disagreements_checked=ndis,
                    rule='over Padauk and %d further fonts (among them fonts whose cmap gives U+0000 a glyph): NUL-terminated strings (all over a boundary alphabet up to 2-3 units, structured well-/ill-formed longer ones) in the three '
-                        'encodings, nChars in {len, len+1, 2len+3, 64}, buffer allocated exactly to the terminator under ASan; non-trivial = distinct '
+                        'encodings, nChars in {len, len+1, 2len+3, 64} and, for four short strings, 2^24, 2^31, 2^31+1, 2^32, 2^60, SIZE_MAX-9, SIZE_MAX; buffer allocated exactly to the terminator under ASan; non-trivial = distinct '
                         '(encoding, reference status, length class, over-estimate class)' % len(fonts),
                    samples=[cases[0], cases[len(cases) // 2], cases[-1]], exhaustive=False)
 
